@@ -1,8 +1,10 @@
 (* Codec core, part 3: the tokenising primitives of include/fix8/message.hpp and
    runtime/message.cpp, with the capacities of the caller's tag/val buffers as parameters so
-   that every write can be checked (C03 instruments the callers with the real capacities:
-   tag[32]/val[2048] in extract_header, tag[2048]/val[2048] in decode and decode_group,
-   len[32], mtype[32] in factory).  No proofs here.
+   that every write can be checked (the real capacities: tag[32]/val[2048] in extract_header,
+   tag[2048]/val[2048] in decode and decode_group, len[32], mtype[32] in factory).
+   Since /repo d48d8ce extract_element is bounded (a tag/value that does not fit = extraction
+   failure); extract_element_fixed_width is still unbounded and does not terminate the tag.
+   No proofs here.
 
    extract_element(const char *from, unsigned sz, char *tag, char *val)
    extract_element_fixed_width(from, sz, val_sz, tag, val)
@@ -29,7 +31,11 @@ Definition zero_write (nt nv tcap vcap : N) (k : xres) : xres :=
   else if negb (nv <? vcap) then XOOB site_val_write
   else k.
 
-(* the loop "for (ii = 0; ii < sz; ++ii)" over from[ii]; [from] is the memory from the start
+(* Since /repo d48d8ce the buffers are taken by array reference (TagSz = tcap, ValSz = vcap): when a
+   tag digit arrives with tcap-1 characters already written, or a value byte with vcap-1 already
+   written, both buffers are terminated at the current positions and 0 is returned (XFail with the
+   contents so far) -- no write past the buffers any more.
+   the loop "for (ii = 0; ii < sz; ++ii)" over from[ii]; [from] is the memory from the start
    pointer to the end of the string object: running off it is a read beyond the buffer.
    inval = state get_value; tag/val are accumulated reversed; nt/nv = bytes written so far *)
 Fixpoint xe_loop (from : list N) (sz ii : N) (inval : bool) (tag val : list N) (nt nv : N)
@@ -40,12 +46,12 @@ Fixpoint xe_loop (from : list N) (sz ii : N) (inval : bool) (tag val : list N) (
     | c :: rest =>
       if inval then
         if c =? SOH then zero_write nt nv tcap vcap (XOk (rev tag) (rev val) (ii + 1))
-        else if nv <? vcap then xe_loop rest sz (ii + 1) true tag (c :: val) nt (nv + 1) tcap vcap
-        else XOOB site_val_write
+        else if nv + 1 <? vcap then xe_loop rest sz (ii + 1) true tag (c :: val) nt (nv + 1) tcap vcap
+        else zero_write nt nv tcap vcap (XFail (rev tag) (rev val))      (* vptr == vend *)
       else
         if is_digit c then
-          if nt <? tcap then xe_loop rest sz (ii + 1) false (c :: tag) val (nt + 1) nv tcap vcap
-          else XOOB site_tag_write
+          if nt + 1 <? tcap then xe_loop rest sz (ii + 1) false (c :: tag) val (nt + 1) nv tcap vcap
+          else zero_write nt nv tcap vcap (XFail (rev tag) (rev val))    (* tptr == tend *)
         else if c =? EQC then xe_loop rest sz (ii + 1) true tag val nt nv tcap vcap
         else zero_write nt nv tcap vcap (XFail (rev tag) (rev val))
     end
@@ -53,6 +59,32 @@ Fixpoint xe_loop (from : list N) (sz ii : N) (inval : bool) (tag val : list N) (
 
 Definition extract_element (from : list N) (sz : N) (tcap vcap : N) : xres :=
   xe_loop from sz 0 false [] [] 0 0 tcap vcap.
+
+(* ORIGINAL code (before /repo d48d8ce), kept for refutation witnesses: unbounded writes.
+   the loop "for (ii = 0; ii < sz; ++ii)" over from[ii]; [from] is the memory from the start
+   pointer to the end of the string object: running off it is a read beyond the buffer.
+   inval = state get_value; tag/val are accumulated reversed; nt/nv = bytes written so far *)
+Fixpoint xe_loop_orig (from : list N) (sz ii : N) (inval : bool) (tag val : list N) (nt nv : N)
+                 (tcap vcap : N) : xres :=
+  if ii <? sz then
+    match from with
+    | [] => XOOB site_read
+    | c :: rest =>
+      if inval then
+        if c =? SOH then zero_write nt nv tcap vcap (XOk (rev tag) (rev val) (ii + 1))
+        else if nv <? vcap then xe_loop_orig rest sz (ii + 1) true tag (c :: val) nt (nv + 1) tcap vcap
+        else XOOB site_val_write
+      else
+        if is_digit c then
+          if nt <? tcap then xe_loop_orig rest sz (ii + 1) false (c :: tag) val (nt + 1) nv tcap vcap
+          else XOOB site_tag_write
+        else if c =? EQC then xe_loop_orig rest sz (ii + 1) true tag val nt nv tcap vcap
+        else zero_write nt nv tcap vcap (XFail (rev tag) (rev val))
+    end
+  else zero_write nt nv tcap vcap (XFail (rev tag) (rev val)).
+
+Definition extract_element_orig (from : list N) (sz : N) (tcap vcap : N) : xres :=
+  xe_loop_orig from sz 0 false [] [] 0 0 tcap vcap.
 
 (* extract_element_fixed_width: the tag digits are copied WITHOUT a terminating NUL; the caller
    then reads tag[] as a C string, i.e. the new digits followed by whatever the buffer held.
